@@ -337,6 +337,11 @@ def run(ctx):
     ctx.check(not esc, 'C08.3', 'parse_all:escape-set-empty', f_pa.loc(), 'no exception of the modelled kinds can escape parse_all (handlers cover the decode step, their own calls raise nothing)',
               'exceptions can escape parse_all: %s' % sorted(r.key() for r in esc)[:4])
     check_loop_exits(ctx, 'C08.3', paths)
+    # an error of any other kind inside the decode step lands in the catch-all handler, which switches decoding off for the rest of the input
+    # (every later message line yields nothing): the object-table lookups on that path must be key-safe (the rule of C15.1 / C18.6)
+    from .. import keysafe as _ks8
+    for fq_, d_ in (('ConnectionImpl.create_object', {'self.db'}), ('ConnectionImpl.retrieve_object', {'self.db'})):
+        _ks8.check(ctx, 'C08.3', repo.func(fq_), d_)
     # the EOF test happens before stripping
     for p in paths:
         for a, v in p.decisions:
